@@ -63,71 +63,82 @@ def table(ctx, rep):
 
 
 def loop_rules(ctx, rep, impl):
+    """multi-site formulation: any number of decode / maybe_pong / write / return sites (helpers are inlined)"""
+    from mirq import is_self_field
     is_async = impl == "tokio"
     b = net.body(ctx, rep, "R7.2", impl, "read")
     if b is None:
         return
+    DEC = b.calls_to(r"Codec::decode$")
     M = b.calls_to(r"Packet::maybe_pong$")
     W = [(bb, t) for bb, t in b.calls() if (callee(t)[0] or "").endswith("framed::Framed::write")]
-    rep.check("R7.2", "%s:anchors" % impl, len(M) == 1 and len(W) == 1,
-              "%s read: expected one maybe_pong call and one Framed::write call (found %d / %d)" % (impl, len(M), len(W)), b.loc(),
-              sample={"impl": impl, "maybe_pong_sites": len(M), "write_sites": len(W)})
-    if len(M) != 1 or len(W) != 1:
-        return
-    mbb, mt = M[0]
-    wbb, wt = W[0]
-    # maybe_pong is applied to the packet that decode produced
-    mo = b.origin(mt["args"][0])
-    rep.check("R7.2", "%s:pong-of-decoded" % impl, any(c[1].endswith("Codec::decode") for c in origin_calls(mo)),
-              "maybe_pong must inspect the packet just decoded (origin %s)" % fmt_origin(mo), b.loc(mt["line"]))
-    sw = b.discr_switch_of_call(mbb)
-    if sw is None:
-        rep.fail("R7.2", "%s:guard" % impl, "the result of maybe_pong is not matched on", b.loc(mt["line"]))
-        return
-    sbb, targets, otherwise, _o = sw
-    some_t = targets.get(1)
-    # argument is the Some payload of that very call, receiver is self
-    a0 = strip_refs(b.origin(wt["args"][0]))
-    a1 = b.origin(wt["args"][1])
-    self_ok = a0 == ("arg", 1) or (a0[0] == "field" and strip_refs(a0[1]) == ("arg", 1) and a0[2] == 0)
-    pay_ok = a1[0] == "downcast" and a1[3] == "Some" and a1[1][0] == "call" and a1[1][4] == mbb or \
-        (a1[0] == "field" and a1[1][0] == "downcast" and a1[1][1][0] == "call" and a1[1][1][4] == mbb)
-    rep.check("R7.2", "%s:reply-is-pong" % impl, self_ok and pay_ok,
-              "the written packet must be exactly the value maybe_pong returned (receiver %s, argument %s)" % (a0, fmt_origin(a1)), b.loc(wt["line"]),
-              sample={"impl": impl, "argument": fmt_origin(a1)})
-    # dominated by the Some edge
-    without = b.reach(0, avoid_edges={(sbb, some_t)}) if some_t is not None else set(range(b.n))
-    rep.check("R7.2", "%s:only-on-some" % impl, some_t is not None and wbb not in without,
-              "the reply can be written on a path that does not go through `maybe_pong() == Some`", b.loc(wt["line"]))
-    # must pass through the write before returning Ok(packet)
     oks = net.packet_ok_returns(b)
-    rep.check("R7.2", "%s:return-anchor" % impl, len(oks) >= 1, "no `return Ok(packet)` of the decoded packet found", b.loc(), nontrivial=False)
-    if some_t is not None:
+    rep.check("R7.2", "%s:anchors" % impl, len(DEC) >= 1 and len(M) >= 1 and len(W) >= 1 and len(oks) >= 1,
+              "%s read: expected decode, maybe_pong, Framed::write and `return Ok(packet)` sites (found %d / %d / %d / %d)" % (impl, len(DEC), len(M), len(W), len(oks)), b.loc(),
+              sample={"impl": impl, "decode_sites": len(DEC), "maybe_pong_sites": len(M), "write_sites": len(W), "packet_returns": len(oks)})
+    if not (DEC and M and W and oks):
+        return
+    mblocks = {bb for bb, _t in M}
+    dblocks = {bb for bb, _t in DEC}
+    # every delivered packet was inspected for a keep-alive: no path decode -> return Ok(packet) avoids maybe_pong
+    for n, (dbb, dt) in enumerate(DEC):
+        esc = b.reach_v(avoid_blocks=mblocks, via=dbb, avoid_after=dblocks)
+        rep.check("R7.2", "%s:every-packet-inspected:%d" % (impl, n), not (set(oks) & esc),
+                  "a decoded packet can be returned to the caller without passing maybe_pong(): a keep-alive taking that path is never answered", b.loc(dt["line"]),
+                  sample={"impl": impl, "decode_block": dbb})
+    some_edges = {}
+    for n, (mbb, mt) in enumerate(M):
+        mo = b.origin(mt["args"][0])
+        rep.check("R7.2", "%s:pong-of-decoded:%d" % (impl, n), b.may_mention(mo, r"Codec::decode$"),
+                  "maybe_pong must inspect the packet just decoded (origin %s)" % fmt_origin(mo), b.loc(mt["line"]))
+        sw = b.discr_switch_of_call(mbb)
+        if sw is None:
+            rep.fail("R7.2", "%s:guard:%d" % (impl, n), "the result of maybe_pong is not matched on", b.loc(mt["line"]))
+            continue
+        sbb, targets, otherwise, _o = sw
+        some_t = targets.get(1)
+        some_edges[mbb] = (sbb, some_t)
+        mine = [(wbb, wt) for wbb, wt in W if any(c[4] == mbb for c in origin_calls(b.origin(wt["args"][1])))]
+        rep.check("R7.2", "%s:reply-site:%d" % (impl, n), len(mine) == 1, "expected exactly one write of this maybe_pong's reply (found %d)" % len(mine), b.loc(mt["line"]), nontrivial=False)
+        if len(mine) != 1 or some_t is None:
+            continue
+        wbb, wt = mine[0]
         skip = b.reach(some_t, avoid_blocks={wbb})
-        rep.check("R7.2", "%s:reply-before-return" % impl, not (set(oks) & skip),
+        rep.check("R7.2", "%s:reply-before-return:%d" % (impl, n), not (set(oks) & skip),
                   "from the keep-alive branch the packet can be returned without the reply having been written first", b.loc(wt["line"]))
         if is_async:
             polls = net.awaited(b, wbb)
             okp = len(polls) == 1 and not (set(oks) & b.reach(some_t, avoid_blocks=set(polls)))
-            rep.check("R7.2", "%s:reply-awaited" % impl, okp, "the reply future must be awaited before the packet is returned (polls %s)" % polls, b.loc(wt["line"]))
-    # at most once per packet
-    again = b.reach_within_iteration(wt["target"]) if wt.get("target") is not None else set()
-    rep.check("R7.2", "%s:at-most-once" % impl, wbb not in again, "the reply write is re-reachable within the same loop iteration", b.loc(wt["line"]))
-    # error propagated
-    tr = net.try_of(b, wbb, is_async)
-    rep.check("R7.2", "%s:error-propagated" % impl, tr is not None and "residual" in b.ret_kinds(tr[3]),
-              "a failed reply write must surface as the read's error", b.loc(wt["line"]))
+            rep.check("R7.2", "%s:reply-awaited:%d" % (impl, n), okp, "the reply future must be awaited before the packet is returned (polls %s)" % polls, b.loc(wt["line"]))
+    for n, (wbb, wt) in enumerate(W):
+        a0 = strip_refs(b.origin(wt["args"][0]))
+        a1 = b.origin(wt["args"][1])
+        self_ok = a0 == ("arg", 1) or (a0[0] == "field" and strip_refs(a0[1]) == ("arg", 1) and a0[2] == 0)
+        x = a1[1] if a1[0] == "field" else a1
+        src = x[1] if x[0] == "downcast" and x[3] == "Some" else None
+        pay_ok = src is not None and src[0] == "call" and src[4] in some_edges
+        rep.check("R7.2", "%s:reply-is-pong:%d" % (impl, n), self_ok and pay_ok,
+                  "the only thing read() may write is the value maybe_pong returned (receiver %s, argument %s)" % (a0, fmt_origin(a1)), b.loc(wt["line"]),
+                  sample={"impl": impl, "argument": fmt_origin(a1)})
+        if pay_ok:
+            sbb, some_t = some_edges[src[4]]
+            without = b.reach(0, avoid_edges={(sbb, some_t)}) if some_t is not None else set(range(b.n))
+            rep.check("R7.2", "%s:only-on-some:%d" % (impl, n), some_t is not None and wbb not in without,
+                      "the reply can be written on a path that does not go through `maybe_pong() == Some`", b.loc(wt["line"]))
+        again = b.reach_within_iteration(wt["target"]) if wt.get("target") is not None else set()
+        rep.check("R7.2", "%s:at-most-once:%d" % (impl, n), wbb not in again and not (dblocks & set()) , "the reply write is re-reachable within the same loop iteration", b.loc(wt["line"]))
+        polls = net.awaited(b, wbb) if is_async else [wbb]
+        rep.check("R7.2", "%s:error-propagated:%d" % (impl, n), any(b.error_returned(pb) for pb in polls),
+                  "a failed reply write must surface as the read's error", b.loc(wt["line"]))
     # nothing else writes: no call on self.inner in read, and read_buf's only transport call is a read
     others = []
     for bb, t in b.calls():
-        if t["args"] and "inner" in str(strip_refs(b.origin(t["args"][0])))[:200] and bb != wbb:
-            d = callee(t)[0]
-            others.append(d)
+        if t["args"] and is_self_field(b.origin(t["args"][0]), "inner"):
+            others.append(callee(t)[0])
     rb = net.body(ctx, rep, "R7.2", impl, "read_buf")
     rb_calls = []
     if rb is not None:
         for bb, t in rb.calls():
-            from mirq import is_self_field
             if t["args"] and is_self_field(rb.origin(t["args"][0]), "inner"):
                 rb_calls.append(callee(t)[0])
     okrb = all(("Read::read" in (d or "")) or ("AsyncReadExt::read" in (d or "")) for d in rb_calls) and len(rb_calls) == 1
